@@ -197,6 +197,7 @@ def run_pop_case(case, rng):
         eta = m.sample(par, n_samples=ns, seed=5, **kw)
         return m.compute_individual_parameters(np.asarray(par, dtype=float), np.asarray(eta), **kw)
     atoms, cells, shape = identify(fn, rng)
+    _STASH[(k, nd, ns)] = (m, par, covs)
     claims, groups = [], []
     for i in range(ns):
         for d in range(nd):
@@ -213,6 +214,53 @@ def run_pop_case(case, rng):
             sub = d if k not in ('G', 'G-nc', 'LN', 'LN-nc', 'TG', 'P') else 0
             groups.append('i%d_d%d' % (i, d))
     return to_record('PopulationModel[%s] n_dim=%d n=%d' % (k, nd, ns), atoms, cells, claims, groups)
+
+
+_STASH = {}
+
+
+def likelihood_checks():
+    """"Samplers draw from the distribution their LOG-LIKELIHOOD scores": for the centred population models the claimed law of
+    every cell (the one the sampler was identified with) is also what compute_log_likelihood scores -- the joint score of
+    several individuals, each with its own covariate-shifted parameters, is the sum of the cells' documented log-densities."""
+    from scipy import stats
+    fails = []
+    rng = np.random.default_rng(11)
+    for case in pop_cases():
+        k, nd, ns = case['kind'], case['nd'], case['ns']
+        if k in ('G-nc', 'LN-nc', 'composed', 'covariate-nc', 'covariate-ln-nc', 'P'):
+            continue                      # (non-centred leaves score eta; point masses have no density)
+        rec = run_pop_case(case, rng)
+        m, par, covs = _STASH[(k, nd, ns)]
+        kw = {} if covs is None else {'covariates': covs}
+        with warnings.catch_warnings():
+            warnings.simplefilter('ignore')
+            psi = np.asarray(m.sample(par, n_samples=ns, seed=7, **kw), dtype=float).reshape(ns, nd)
+            got = float(m.compute_log_likelihood(np.asarray(par, dtype=float), psi.copy(), **kw))
+        exp = 0.0
+        for i in range(ns):
+            for d in range(nd):
+                cell = rec['cells'][i * nd + d]
+                law, a, b = (cell['claim']['fam'], cell['claim']['loc'] / DEN, cell['claim']['scale'] / DEN) \
+                    if cell['form'] != 'other' else (None, 0, 0)         # (records carry numbers as multiples of 1 / DEN)
+                x = psi[i, d]
+                if law == 'normal':
+                    exp += stats.norm.logpdf(x, a, b)
+                elif law == 'lognormal':
+                    exp += stats.lognorm.logpdf(x, b, scale=np.exp(a))
+                elif law == 'truncnorm':
+                    exp += stats.truncnorm.logpdf(x, -a / b, np.inf, loc=a, scale=b)
+                elif law == 'point':
+                    exp += 0.0
+                else:
+                    exp = None
+                    break
+            if exp is None:
+                break
+        if exp is not None and not interp.close(got, exp, rtol=1e-9, atol=1e-9):
+            fails.append(('CellLaw', 'log_likelihood_scores_another_density',
+                          dict(sampler=rec['name'], got=got, expected=float(exp))))
+    return fails
 
 
 def moment_checks():
@@ -240,6 +288,7 @@ def moment_checks():
         if c['form'] != 'logaffine' or abs(c['c0'] - (np.log(y) - 0.18)) > 1e-12 or abs(c['coef'][0][1] - 0.6) > 1e-12:
             fails.append(('CellLaw', 'LogNormalErrorModel mean', dict(y=y, cell=c)))
     fails += hetero_checks()
+    fails += likelihood_checks()
     return fails
 
 
